@@ -243,9 +243,9 @@ def check(prop: str, tier: str, light: bool = False) -> Report:
     deep = simulate_graph(tier, configs)
     n_exh = len(edges)
     edges = edges + deep
-    g = replay_graph(configs, edges, rng, n_walks=2000 if tier == "quick" else 20000)
+    g = replay_graph(configs, edges, rng, n_walks=(500 if light else 2000) if tier == "quick" else 20000)
     n_traces, n_ops, mism, samples = g["n_traces"], g["n_ops"], g["mismatches"], g["samples"]
-    n_rand = 1500 if tier == "quick" else 20000
+    n_rand = (700 if light else 1500) if tier == "quick" else 20000
     rand = [random_history(rng, 40) for _ in range(n_rand)]
     verdicts = tlc_validate(mism + rand, "main")
     canary(rand[0])
